@@ -1,0 +1,30 @@
+//go:build verif
+
+package swamp
+
+// Machine-checked contracts (comment-only; compiled only with -tags verif).
+
+// Interface-level contract: which expiry a patch hands to the record.
+//@ trusted func (github.com/hydraide/hydraide/app/core/hydra/swamp/treasure.Treasure).SetExpirationTime(t, guardID, expirationTime)
+//@ trusted func (github.com/hydraide/hydraide/app/core/hydra/swamp/treasure.Treasure).SetModifiedAt(t, guardID, at)
+//@ trusted func (github.com/hydraide/hydraide/app/core/hydra/swamp/treasure.Treasure).SetModifiedBy(t, guardID, by)
+//@ trusted func (github.com/hydraide/hydraide/app/core/hydra/swamp/treasure.Treasure).SetCreatedAt(t, guardID, at)
+//@ trusted func (github.com/hydraide/hydraide/app/core/hydra/swamp/treasure.Treasure).SetCreatedBy(t, guardID, by)
+
+// Patch meta (property C30): clearing the expiry wins over setting it; an absent (zero) SetExpiredAt
+// leaves the expiry alone; otherwise exactly the requested instant is set.
+//@ func applyPatchMeta(treasureObj, guardID, meta, onCreate)
+//@   property C30
+//@   requires[record] treasureObj != nil
+//@   modifies *
+//@   ensures[nil_meta_is_noop] meta == nil ==> calls("Treasure.SetExpirationTime") == old(calls("Treasure.SetExpirationTime"))
+//@   ensures[clear_wins] meta != nil && old(meta.ClearExpiredAt) ==> calls("Treasure.SetExpirationTime") == old(calls("Treasure.SetExpirationTime")) + 1 && argsat("Treasure.SetExpirationTime", 2, "P_time_iszero")
+//@   ensures[set_exact_instant] meta != nil && !old(meta.ClearExpiredAt) && !P_time_iszero(old(meta.SetExpiredAt)) ==> calls("Treasure.SetExpirationTime") == old(calls("Treasure.SetExpirationTime")) + 1 && calledwith("Treasure.SetExpirationTime", 2, old(meta.SetExpiredAt))
+//@   ensures[absent_leaves_expiry] meta != nil && !old(meta.ClearExpiredAt) && P_time_iszero(old(meta.SetExpiredAt)) ==> calls("Treasure.SetExpirationTime") == old(calls("Treasure.SetExpirationTime"))
+
+// The expiry of a record as a time.Time: 0 (never) maps to the zero time, anything else to that instant.
+//@ func expirationTimeAsTime(expirationTime) (t)
+//@   property C30
+//@   nopanic
+//@   ensures[never_is_zero_time] expirationTime == 0 ==> P_time_iszero(t)
+//@   ensures[instant] expirationTime != 0 ==> U_unixnano(t) == expirationTime
